@@ -131,6 +131,9 @@ def resize(input, oshape, ishift=None, oshift=None):
     """
 
     ishape1, oshape1 = _expand_shapes(input.shape, oshape)
+    # Shapes may come as (unsigned) NumPy integers: compute with Python ints.
+    ishape1 = [int(i) for i in ishape1]
+    oshape1 = [int(o) for o in oshape1]
 
     if ishape1 == oshape1 and ishift is None and oshift is None:
         return input.reshape(oshape)
